@@ -309,8 +309,8 @@ def check_c18(tier):
     V = Verdict('C18', tier)
     V.assumptions = ['histories respect the asserted preconditions of the library (DESIGN.md 4.3)', 'sanitizers: g++ 12 and clang 14 ASan+UBSan (no recovery), clang 14 MSan with the instance storage poisoned before construction; allocation entry points are wrapped/replaced and counted while a library call is on the stack']
     # (config, deviation bound plain build, deviation bound sanitizer builds, menus, operations)
-    base = [('P8c', 0, 0, M_P0, og('CORE', 'PLAN', 'REPORT'), ('asan-clang',)), ('T2', 1, 1, M_TP, O_TALL), ('T5', 1, 1, M_TP, O_TALL), ('T6', 1, 1, M_TP, O_TALL), ('P5', 1, 1, M_P, O_P | og('PLAN_REMOVE', 'COPY', 'DESTROY', 'REACT')), ('P7', 1, 0, M_P0 | mf('PAYLOAD'), O_P | og('PAYLOAD')), ('P3', 2, 1, M_P, O_PALL), ('T3', 2, 2, M_T, O_TALL), ('A2', 1, 0, mf('PHASE_REQ', 'GUARD_CANCEL', 'REPORT', 'PLAN_EDIT', 'PAYLOAD'), og('CORE', 'PLAN', 'REPORT', 'MANUAL', 'SERIAL', 'REPLAY', 'COPY', 'DESTROY', 'PAYLOAD', 'LOG'))]
-    if tier == 'thorough': base = [b for b in base if b[0] in ('P8c', 'A2')] + [('T2', 2, 2, M_TP, O_TALL), ('T5', 2, 1, M_TP, O_TALL), ('T6', 2, 2, M_TP, O_TALL), ('T1', 2, 2, M_T, O_TALL), ('P5', 2, 1, M_PG, O_PALL), ('P7', 1, 1, M_P | mf('PAYLOAD'), O_PALL), ('P3', 3, 2, M_P, O_PALL), ('T3', 3, 3, M_T, O_TALL), ('P2', 1, 0, M_P0 | mf('PAYLOAD'), O_P | og('PAYLOAD', 'MANUAL', 'REPLAY')), ('T4', 1, 1, M_T, O_TALL), ('I1', 1, 1, M_T, O_T), ('P4', 0, 0, M_P0 | mf('PAYLOAD'), O_P | og('PAYLOAD'))]
+    base = [('P8c', 0, 0, M_P0, og('CORE', 'PLAN', 'REPORT'), ('asan-clang',)), ('T9a', 1, 1, M_TP, O_T | og('PAYLOAD')), ('T9b', 1, 1, M_TP, O_T | og('PAYLOAD', 'SERIAL')), ('P7a', 1, 0, M_P0 | mf('PAYLOAD'), O_P | og('PAYLOAD')), ('P7b', 0, 0, M_P0 | mf('PAYLOAD'), O_P | og('PAYLOAD'), ('asan-gcc', 'msan')), ('T2', 1, 1, M_TP, O_TALL), ('T5', 1, 1, M_TP, O_TALL), ('T6', 1, 1, M_TP, O_TALL), ('P5', 1, 1, M_P, O_P | og('PLAN_REMOVE', 'COPY', 'DESTROY', 'REACT')), ('P7', 1, 0, M_P0 | mf('PAYLOAD'), O_P | og('PAYLOAD')), ('P3', 2, 1, M_P, O_PALL), ('T3', 2, 2, M_T, O_TALL), ('A2', 1, 0, mf('PHASE_REQ', 'GUARD_CANCEL', 'REPORT', 'PLAN_EDIT', 'PAYLOAD'), og('CORE', 'PLAN', 'REPORT', 'MANUAL', 'SERIAL', 'REPLAY', 'COPY', 'DESTROY', 'PAYLOAD', 'LOG'))]
+    if tier == 'thorough': base = [b for b in base if b[0] in ('P8c', 'A2', 'T9a', 'T9b', 'P7a', 'P7b')] + [('T2', 2, 2, M_TP, O_TALL), ('T5', 2, 1, M_TP, O_TALL), ('T6', 2, 2, M_TP, O_TALL), ('T1', 2, 2, M_T, O_TALL), ('P5', 2, 1, M_PG, O_PALL), ('P7', 1, 1, M_P | mf('PAYLOAD'), O_PALL), ('P3', 3, 2, M_P, O_PALL), ('T3', 3, 3, M_T, O_TALL), ('P2', 1, 0, M_P0 | mf('PAYLOAD'), O_P | og('PAYLOAD', 'MANUAL', 'REPLAY')), ('T4', 1, 1, M_T, O_TALL), ('I1', 1, 1, M_T, O_T), ('P4', 0, 0, M_P0 | mf('PAYLOAD'), O_P | og('PAYLOAD'))]
     specs = []
     for bt in base:
         (c, d, ds, m, o) = bt[:5]; only = bt[5] if len(bt) > 5 else None      # `only`: a large configuration that runs under the named sanitizer builds only
